@@ -35,6 +35,24 @@ var procsList = []int{1, 2, 5}
 // decoder counts outside the documented range (Start clamps n < 1 to 1): every class also runs with
 // one of them, rotating
 var oddProcs = []int{0, -1, -7}
+
+// how the bytes reach the decoder (pbfrun.Job.Reader), rotating over the scans of a run: plain
+// bytes.Reader, last bytes together with io.EOF, one byte per Read, short chunks, short chunks with
+// (0, nil) now and then.  The model does not depend on it: io.ReadFull hides all of that.
+var readerRot int
+var readerUse = map[int]int{}
+
+func nextReader() int {
+	readerRot++
+	k := []int{0, 1, 0, 2, 3, 1, 4, 0}[readerRot%8]
+	readerUse[k]++
+	lastReader = k
+	return k
+}
+
+// lastReader: the reader kind of the scan(s) started last (recorded in the case descriptions)
+var lastReader int
+
 var oddRot int
 
 func oddProc() int { oddRot++; return oddProcs[oddRot%len(oddProcs)] }
@@ -194,7 +212,7 @@ func truncCase(w *wire.Writer, r *pbfrun.Runner, f *file, procs int, headerFirst
 	for i := range units {
 		units[i] = i
 	}
-	obs, err := r.Run(pbfrun.Job{Data: f.data, Procs: procs, Mode: "cut", Units: units, HeaderFirst: headerFirst})
+	obs, err := r.Run(pbfrun.Job{Reader: nextReader(), Data: f.data, Procs: procs, Mode: "cut", Units: units, HeaderFirst: headerFirst})
 	if err != nil {
 		return nil, err
 	}
@@ -265,7 +283,7 @@ func truncCase(w *wire.Writer, r *pbfrun.Runner, f *file, procs int, headerFirst
 	}
 	c := emitTrunc(procs, fds, runs)
 	c.OracleFail = oracle
-	c.Desc = map[string]interface{}{"kind": "truncation sweep: every cut 0..size", "file_seed": f.seed, "size": len(f.data),
+	c.Desc = map[string]interface{}{"reader_kind": lastReader, "kind": "truncation sweep: every cut 0..size", "file_seed": f.seed, "size": len(f.data),
 		"procs": procs, "header_called_first": headerFirst, "frames": fds, "runs": runs, "file": f.desc}
 	if headerFirst {
 		c.Class = "trunc:header_first"
@@ -578,7 +596,11 @@ func damageCase(w *wire.Writer, r *pbfrun.Runner, base *file, dm *dmg, pos int, 
 		}
 	}
 	f.encode()
-	return observeDamage(w, r, f, dm.name, pos, dm.inBlock, 2)
+	c, err := observeDamage(w, r, f, dm.name, pos, dm.inBlock, 2)
+	if err == nil && !dm.inBlock {
+		err = observeDamageSkips(w, r, f, dm.name, pos, 2)
+	}
+	return c, err
 }
 
 // sessionCase: one scanner driven by a call script (Scan, Err, Header, Close in any order, going on
@@ -614,7 +636,7 @@ func sessionCase(w *wire.Writer, r *pbfrun.Runner, f *file, fds []pbfrun.FrameDe
 	if mode == 0 {
 		cut = k
 	}
-	obs, err := r.Run(pbfrun.Job{Data: f.data, Procs: procs, Mode: "session", Units: []int{cut}, Calls: calls})
+	obs, err := r.Run(pbfrun.Job{Reader: nextReader(), Data: f.data, Procs: procs, Mode: "session", Units: []int{cut}, Calls: calls})
 	if err != nil {
 		return nil, err
 	}
@@ -641,7 +663,7 @@ func sessionCase(w *wire.Writer, r *pbfrun.Runner, f *file, fds []pbfrun.FrameDe
 		c.Int(o.Resp[i])
 		c.Tok(o.RespTok[i])
 	}
-	c.Desc = map[string]interface{}{"kind": "call script", "mode (0 cut valid file, 1 damaged file)": mode, "file_seed": f.seed, "size": len(f.data), "k": k, "procs": procs,
+	c.Desc = map[string]interface{}{"reader_kind": lastReader, "kind": "call script", "mode (0 cut valid file, 1 damaged file)": mode, "file_seed": f.seed, "size": len(f.data), "k": k, "procs": procs,
 		"calls (0 Scan 1 Err 2 Header 3 Close)": calls, "responses": o.Resp}
 	return c, nil
 }
@@ -720,7 +742,7 @@ func skipDamageCase(w *wire.Writer, r *pbfrun.Runner, base *file, dm *dmg, pos i
 	c.Len(len(ps))
 	var seen []interface{}
 	for _, p := range ps {
-		obs, err := r.Run(pbfrun.Job{Data: f.data, Procs: p, Skip: skip, Mode: "cut", Units: []int{len(f.data)}})
+		obs, err := r.Run(pbfrun.Job{Reader: nextReader(), Data: f.data, Procs: p, Skip: skip, Mode: "cut", Units: []int{len(f.data)}})
 		if err != nil {
 			return nil, err
 		}
@@ -750,6 +772,33 @@ func skipDamageCase(w *wire.Writer, r *pbfrun.Runner, base *file, dm *dmg, pos i
 	return c, nil
 }
 
+// damageSkip: the Skip flags observeDamage scans (and describes) the file with
+var damageSkip [3]bool
+var skipRot int
+
+// observeDamageSkips: the same blob-level damage under Skip flags.  Damage of the framing, of the
+// Blob and of its compression must be reported whatever element kinds the caller wants: always
+// with all three flags set (nothing of the block is wanted, the block must still be read), and
+// with one more of the other six combinations, rotating.
+func observeDamageSkips(w *wire.Writer, r *pbfrun.Runner, f *file, name string, pos int, tag int64) error {
+	skipRot++
+	others := [][3]bool{{true, false, false}, {false, true, false}, {false, false, true}, {true, true, false}, {true, false, true}, {false, true, true}}
+	sets := [][3]bool{{true, true, true}, others[skipRot%6]}
+	defer func() { damageSkip = [3]bool{} }()
+	for _, sk := range sets {
+		if r.GaveUp() {
+			return nil
+		}
+		damageSkip = sk
+		c, err := observeDamage(w, r, f, fmt.Sprintf("%s:skip=%v", name, sk), pos, false, tag)
+		if err != nil {
+			return err
+		}
+		w.Add(c)
+	}
+	return nil
+}
+
 // observeDamage scans the (already encoded) damaged file with every decoder count and writes the
 // case.  tag 2: the scan must end in an error after the intact blocks; tag 4 (zlib stream without
 // its adler32 trailer, data intact): either that, or success with every object.
@@ -758,7 +807,7 @@ func observeDamage(w *wire.Writer, r *pbfrun.Runner, f *file, name string, pos i
 	if inBlock {
 		inb[pos] = true
 	}
-	fds := pbfrun.Describe(f.desc, f.data, f.frames, [3]bool{}, inb)
+	fds := pbfrun.Describe(f.desc, f.data, f.frames, damageSkip, inb)
 	var all []uint64
 	for i := range fds {
 		all = append(all, fds[i].Objs...)
@@ -803,7 +852,7 @@ func observeDamage(w *wire.Writer, r *pbfrun.Runner, f *file, name string, pos i
 	var obsl []ob
 	for _, rc := range cfgs {
 		p := rc.procs
-		obs, err := r.Run(pbfrun.Job{Data: f.data, Procs: p, Mode: "cut", Units: []int{len(f.data)}, HeaderFirst: rc.hf, Alloc: f.allocLimit > 0})
+		obs, err := r.Run(pbfrun.Job{Reader: nextReader(), Data: f.data, Procs: p, Skip: damageSkip, Mode: "cut", Units: []int{len(f.data)}, HeaderFirst: rc.hf, Alloc: f.allocLimit > 0})
 		if err != nil {
 			return nil, err
 		}
@@ -914,7 +963,7 @@ func wholeCase(w *wire.Writer, r *pbfrun.Runner, f *file, class string) (*wire.C
 	c.Len(len(ps))
 	var seen []interface{}
 	for _, p := range ps {
-		obs, err := r.Run(pbfrun.Job{Data: f.data, Procs: p, Mode: "cut", Units: []int{len(f.data)}})
+		obs, err := r.Run(pbfrun.Job{Reader: nextReader(), Data: f.data, Procs: p, Mode: "cut", Units: []int{len(f.data)}})
 		if err != nil {
 			return nil, err
 		}
@@ -930,7 +979,7 @@ func wholeCase(w *wire.Writer, r *pbfrun.Runner, f *file, class string) (*wire.C
 				class, p, len(o.Objs), oc, o.ErrText+o.CrashMsg, len(exp))
 		}
 	}
-	c.Desc = map[string]interface{}{"kind": "whole valid file", "class": class, "file_seed": f.seed, "size": len(f.data),
+	c.Desc = map[string]interface{}{"reader_kind_of_last_scan": lastReader, "kind": "whole valid file", "class": class, "file_seed": f.seed, "size": len(f.data),
 		"frames_summary": fmt.Sprintf("%d frames", len(fds)), "observed": seen, "expected_objects": exp}
 	return c, nil
 }
@@ -1286,6 +1335,11 @@ func main() {
 							fail(err)
 						}
 						w.Add(c)
+						if cl.tag == 2 && cl.corrupt != 101 {
+							if err := observeDamageSkips(w, rr, f, cl.name+":"+build, pos, 2); err != nil {
+								fail(err)
+							}
+						}
 						if len(f.allocs) > 0 {
 							// 6 ALLOC: frames damaged_frame | (procs MiB)*  -- the Go heap handed out
 							// during each scan, judged in Coq against the model's inflated_bytes
@@ -1389,6 +1443,9 @@ func main() {
 	if lastDamage != nil {
 		w.Add(lastDamage(func(objs []uint64, oc int64) ([]uint64, int64) { return objs, 0 }))
 		w.Add(lastDamage(func(objs []uint64, oc int64) ([]uint64, int64) { return append(objs, 4001), oc }))
+	}
+	for k, v := range readerUse {
+		w.Stats[fmt.Sprintf("reader_kind=%d", k)] = v
 	}
 	w.Stats["runner:crashes"] = r.Crashes
 	w.Stats["runner:hangs"] = r.Hangs
